@@ -1359,6 +1359,191 @@ func (e *Engine) globalConstObligations(p string) []*Obligation {
 	return out
 }
 
+// emitOnSuccessObligations: "emitonsuccess FUNC VAR" - no store to the
+// variable VAR inside FUNC can be followed (CFG reachability) by a return of
+// the constant false.
+func (e *Engine) emitOnSuccessObligations(p string) []*Obligation {
+	var out []*Obligation
+	for _, r := range e.cs.EmitOnSuccess {
+		if !hasProp(r.Props, p) {
+			continue
+		}
+		detail := ""
+		f, ok := e.funcByKey[r.Func]
+		stores := 0
+		if !ok {
+			detail = "unknown function " + r.Func
+		} else {
+			isVar := func(v ssa.Value) bool {
+				switch a := v.(type) {
+				case *ssa.FreeVar:
+					return a.Name() == r.Var
+				case *ssa.Alloc:
+					return a.Comment == r.Var
+				case *ssa.Global:
+					return a.Name() == r.Var
+				}
+				return false
+			}
+			returnsFalse := func(b *ssa.BasicBlock) bool {
+				if len(b.Instrs) == 0 {
+					return false
+				}
+				ret, ok := b.Instrs[len(b.Instrs)-1].(*ssa.Return)
+				if !ok || len(ret.Results) == 0 {
+					return false
+				}
+				k, ok := ret.Results[0].(*ssa.Const)
+				return ok && k.Value != nil && k.Value.Kind() == constant.Bool && !constant.BoolVal(k.Value)
+			}
+			for _, b := range f.Blocks {
+				for _, ins := range b.Instrs {
+					st, ok := ins.(*ssa.Store)
+					if !ok || !isVar(st.Addr) {
+						continue
+					}
+					stores++
+					seen := map[*ssa.BasicBlock]bool{}
+					work := []*ssa.BasicBlock{b}
+					first := true
+					for len(work) > 0 {
+						x := work[len(work)-1]
+						work = work[:len(work)-1]
+						if !first || true {
+							if returnsFalse(x) && (x != b || true) {
+								detail = fmt.Sprintf("%s: %s can be followed by 'return false'", e.fset.Position(st.Pos()), strings.TrimSpace(e.sourceLine(st.Pos())))
+							}
+						}
+						first = false
+						for _, s := range x.Succs {
+							if !seen[s] {
+								seen[s] = true
+								work = append(work, s)
+							}
+						}
+					}
+				}
+			}
+			if stores == 0 && detail == "" {
+				detail = "no assignment to " + r.Var + " in " + r.Func
+			}
+		}
+		ft := e.newFT(nil)
+		goal := "true"
+		if detail != "" {
+			goal = "false"
+		}
+		out = append(out, &Obligation{Name: "scan/emitonsuccess " + shortKey(r.Func) + ":" + r.Var, Kind: "scan", Props: r.Props, Func: "scan", Pos: fmt.Sprintf("%s:%d", filepath.Base(r.File), r.Line),
+			Text: "what " + shortKey(r.Func) + " itself appends to " + r.Var + " is appended only when it can no longer return false", Goal: goal, Reach: "true", ft: ft, SrcLine: detail})
+	}
+	return out
+}
+
+// constFormatObligations: "constformat" - no text that is data reaches a
+// printf-like function as its format string.
+func (e *Engine) constFormatObligations(p string) []*Obligation {
+	var out []*Obligation
+	// printf-like functions: the fmt family, and repository functions that
+	// hand one of their own string parameters on as a format (wrappers)
+	fmtIdx := map[string]int{"fmt.Printf": 0, "fmt.Sprintf": 0, "fmt.Errorf": 0, "fmt.Fprintf": 1, "fmt.Appendf": 1, "log.Printf": 0, "log.Fatalf": 0, "log.Panicf": 0}
+	wrapper := map[*ssa.Function]int{}
+	formatArg := func(c *ssa.CallCommon) (ssa.Value, bool) {
+		callee := c.StaticCallee()
+		if callee == nil {
+			return nil, false
+		}
+		if i, ok := fmtIdx[e.extName(callee)]; ok && i < len(c.Args) {
+			return c.Args[i], true
+		}
+		if i, ok := wrapper[callee]; ok && i < len(c.Args) {
+			return c.Args[i], true
+		}
+		return nil, false
+	}
+	for changed := true; changed; {
+		changed = false
+		for _, f := range e.allFuncs {
+			if !e.inRepo(f) {
+				continue
+			}
+			if _, ok := wrapper[f]; ok {
+				continue
+			}
+			for _, b := range f.Blocks {
+				for _, ins := range b.Instrs {
+					ci, ok := ins.(ssa.CallInstruction)
+					if !ok {
+						continue
+					}
+					if a, ok := formatArg(ci.Common()); ok {
+						if prm, ok := a.(*ssa.Parameter); ok {
+							for i, q := range f.Params {
+								if q == prm {
+									// static calls pass the receiver as first argument: same index
+									wrapper[f] = i
+									changed = true
+								}
+							}
+						}
+					}
+				}
+			}
+		}
+	}
+	for _, r := range e.cs.ConstFormats {
+		if !hasProp(r.Props, p) {
+			continue
+		}
+		var bad []string
+		sites := 0
+		for _, f := range e.allFuncs {
+			pk := e.pkgOf(f)
+			if pk == nil || pk.Pkg.Path() != r.Pkg {
+				continue
+			}
+			for _, b := range f.Blocks {
+				for _, ins := range b.Instrs {
+					ci, ok := ins.(ssa.CallInstruction)
+					if !ok {
+						continue
+					}
+					a, ok := formatArg(ci.Common())
+					if !ok {
+						continue
+					}
+					sites++
+					if _, isConst := a.(*ssa.Const); isConst {
+						continue
+					}
+					if prm, isParam := a.(*ssa.Parameter); isParam && prm.Parent() == f {
+						if _, w := wrapper[f]; w {
+							continue
+						}
+					}
+					bad = append(bad, fmt.Sprintf("%s: %s", e.fset.Position(ins.Pos()), strings.TrimSpace(e.sourceLine(ins.Pos()))))
+				}
+			}
+		}
+		ft := e.newFT(nil)
+		goal := "true"
+		detail := fmt.Sprintf("%d printf-like calls, all with constant format", sites)
+		if len(bad) > 0 {
+			goal = "false"
+			detail = "format string is data: " + strings.Join(bad, "; ")
+		}
+		out = append(out, &Obligation{Name: "scan/constformat " + shortKey(r.Pkg), Kind: "scan", Props: r.Props, Func: "scan", Pos: fmt.Sprintf("%s:%d", filepath.Base(r.File), r.Line),
+			Text: "no data is interpreted as a printf format in package " + shortKey(r.Pkg), Goal: goal, Reach: "true", ft: ft, SrcLine: detail})
+	}
+	return out
+}
+
+func shortKey(k string) string {
+	if i := strings.LastIndex(k, "/"); i >= 0 {
+		return k[i+1:]
+	}
+	return k
+}
+
 func (e *Engine) sourceSpan(pos token.Pos, n int) string {
 	if !pos.IsValid() {
 		return ""
